@@ -44,6 +44,31 @@ def obligations(tier):
         for fill in ((False,) if tier == "quick" else (False, True)):
             obs.append(Ob(f"{spec_name((kind, name, kw))}/tf=T2/fill={fill}/step=40s/n={nn}", dict(spec=[kind, name, kw], n=nn, tf="T2", fill=fill, sched="family", step=40), EQ,
                           weight=nn, budget_s=240 if tier == "quick" else 3600, max_paths=20000 if tier == "quick" else 400000))
+    # the value-branching recursive indicators over a collapsing timeframe fed live, long enough for three closed buckets
+    # with readings and a forming one: state carried on the indicator OBJECT (instead of on the candles) goes stale when the
+    # forming bucket is recomputed after each merge
+    for kind, name, kw, w in all_specs(tier):
+        if name not in ("Supertrend", "RSI", "OBV", "KC", "MACD", "TSI", "STOCH", "Counter", "HMA") or (tier == "quick" and kw.get("period", 2) > 2):
+            continue
+        nn = 2 * (w + 3) if name != "RSI" else 2 * (w + 2)     # RSI: three-way value branching per reading
+        obs.append(Ob(f"live-long/{spec_name((kind, name, kw))}/tf=T2/n={nn}", dict(spec=[kind, name, kw], n=nn, tf="T2", fill=False, sched="family"), EQ,
+                      weight=20 * nn, budget_s=240 if tier == "quick" else 3600, max_paths=20000 if tier == "quick" else 400000))
+    # windows longer than the whole stream (the shipped defaults are 100 and 200 candles): every reading is computed
+    # over 'all candles so far', in batch as well as live
+    longw = [("ind", "HL", dict(period=7)), ("ind", "donchian", dict(period=7)), ("ind", "SMA", dict(period=7)), ("ind", "aroon", dict(period=7)),
+             ("amorph", "highest", dict(indicator="high", length=7)), ("amorph", "lowest", dict(indicator="low", length=7)), ("amorph", "value_range", dict(indicator="close", length=7)),
+             ("amorph", "highestbar", dict(indicator="high", length=7)), ("amorph", "lowestbar", dict(indicator="low", length=7)),
+             ("amorph", "rising", dict(indicator="close", length=7)), ("amorph", "mean_falling", dict(indicator="close", length=7))]
+    for kind, name, kw in longw:
+        for nn in ((4,) if tier == "quick" else (4, 6)):
+            for tf in (None, "T2"):
+                if tf and (tier == "quick" and name not in ("HL", "highest", "value_range")):
+                    continue
+                m = nn if tf is None else 2 * nn - 1
+                if name in ("highestbar", "lowestbar", "rising", "aroon") and tf:
+                    continue
+                obs.append(Ob(f"long-window/{spec_name((kind, name, kw))}/tf={tf}/n={m}", dict(spec=[kind, name, kw], n=m, tf=tf, fill=False, sched="family"), EQ,
+                              weight=10 * m, budget_s=240 if tier == "quick" else 3600, max_paths=20000 if tier == "quick" else 400000))
     # indicators chained inside a Hexital (one reads the other's output): batch vs every append schedule
     for n in ((5,) if tier == "quick" else (5, 6)):
         obs.append(Ob(f"hexital-chain/n={n}", dict(n=n), EQ, fn="run_chain", weight=20, budget_s=600))
